@@ -71,6 +71,11 @@ def run(res, tier, br, model_ok=True, search=False):
             if big or rng.random() < 0.3:
                 try:
                     variants.append((mname, fn(hdr) + body, 1))
+                    # the damaged block followed directly by a comment that cannot belong to a header
+                    if rng.random() < 0.5:
+                        variants.append((mname + "/line-comment-below", fn(hdr) + "// note\n" + body, 1))
+                    if rng.random() < 0.3:
+                        variants.append((mname + "/indented-comment-below", fn(hdr) + "\t/* note */\n" + body, 1))
                 except Exception:
                     pass
         for mname, text in whole_file_mutations(hdr, body, rng).items():
